@@ -1067,6 +1067,7 @@ fn check_result(
     let (rt, rs) = ref_prove(&c.view, &key);
     let want_depth = rs.len();
     out.count("seeks");
+    out.nontrivial(&format!("seek|{}|{}|{}|{}|{}", hex(&key), c.view.len(), asked_pages.len(), asked_leaves.len(), record));
     out.add("sibling_depth_total", want_depth as u64);
     if want_depth >= 6 {
         out.count(&format!("boundaries_crossed_{}", (want_depth / 6).min(7)));
